@@ -198,3 +198,11 @@ impl digest::Reset for Groestl384 {
         *self = Groestl384::default();
     }
 }
+
+/// Verification hook (off unless built with `--cfg cryptocorrosion_verif`): makes crate-private items
+/// and state reachable from the external contract harnesses in $CRYPTOCORROSION_VERIF_DIR. Add-only.
+#[cfg(cryptocorrosion_verif)]
+#[doc(hidden)]
+pub mod verif_incrate {
+    include!(concat!(env!("CRYPTOCORROSION_VERIF_DIR"), "/incrate/groestl_aesni.rs"));
+}
